@@ -556,6 +556,61 @@ Section ClaimProofs.
     apply claim_ok_iff in H as (He & (sig & Hh & (a & v & rs & rid & pk & Ea & Es & _ & Er & Erec & Eaddr & _)) & _).
     split; [apply mem_In; exact He|]. exists sig, a, v, rs, rid, pk. auto 10.
   Qed.
+  (* claim_ok_iff with every definition unfolded down to the oracles *)
+  Theorem claim_ok_spelled : forall mwl st sender eth_addr eth_sig st' msgs,
+    claim' mwl st sender eth_addr eth_sig = Ok (st', msgs) ->
+    In eth_addr (a_list st) /\
+    (exists sig rs v rid digits a pk,
+       hexdec eth_sig = Some sig /\ sig = rs ++ [v] /\ len rs = 64 /\
+       ((v = 0 /\ rid = 0) \/ (v = 1 /\ rid = 1) \/ (v = 27 /\ rid = 0) \/ (v = 28 /\ rid = 1)) /\
+       eth_addr = 48 :: 120 :: digits /\ len eth_addr = 42 /\ hexdec digits = Some a /\ len a = 20 /\
+       recover (keccak (eth_preimage (plaintext (a_template st) sender))) rs rid = Some pk /\
+       address_of pk = Some a /\
+       verify (keccak (eth_preimage (plaintext (a_template st) sender))) rs pk = Some true) /\
+    bmap_get eth_addr (a_counts st) < a_limit st /\
+    exists wl, mwl = Some wl /\
+      msgs = [ASend sender NATIVE (a_amount st); AAddMembers wl [sender]] /\
+      st' = mkAState (a_template st) (a_amount st) (a_list st) (a_limit st)
+                     (bmap_set eth_addr (bmap_get eth_addr (a_counts st) + 1) (a_counts st)).
+  Proof.
+    intros mwl st sender eth_addr eth_sig st' msgs H.
+    apply claim_ok_iff in H as (He & (sig & Hh & (a & v & rs & rid & pk & Ea & Es & El & Er & Erec & Eaddr & Ev)) & Hlt & wl & Hwl & Hst & Hm).
+    apply decode_address_spec in Ea as (digits & E1 & E2 & E3 & E4).
+    apply recovery_param_spec in Er.
+    split; [apply mem_In; exact He|]. split.
+    - exists sig, rs, v, rid, digits, a, pk. repeat split; auto.
+    - split; [exact Hlt|]. exists wl. auto.
+  Qed.
+
+  Lemma len_app_one : forall (rs : bytes) v, len (rs ++ [v]) = len rs + 1.
+  Proof. intros. unfold len. rewrite app_length. cbn. lia. Qed.
+
+  (* malformed addresses and signatures are rejected, never accepted *)
+  Theorem claim_rejects_malformed : forall mwl st sender eth_addr eth_sig,
+    ( len eth_addr <> 42
+      \/ (forall digits, eth_addr <> 48 :: 120 :: digits)
+      \/ (forall digits, eth_addr = 48 :: 120 :: digits -> hexdec digits = None)
+      \/ hexdec eth_sig = None
+      \/ (exists sig, hexdec eth_sig = Some sig /\ len sig <> 65)
+      \/ (exists sig rs v, hexdec eth_sig = Some sig /\ sig = rs ++ [v] /\ v <> 0 /\ v <> 1 /\ v <> 27 /\ v <> 28) ) ->
+    claim' mwl st sender eth_addr eth_sig = Err.
+  Proof.
+    intros mwl st sender eth_addr eth_sig Hbad.
+    destruct (claim' mwl st sender eth_addr eth_sig) as [[st' msgs]|] eqn:E; [|reflexivity]. exfalso.
+    apply claim_ok_spelled in E as (_ & (sig & rs & v & rid & digits & a & pk & Hh & Hs & Hl & Hv & Ha & Hla & Hd & _) & _).
+    destruct Hbad as [H|[H|[H|[H|[H|H]]]]].
+    - contradiction.
+    - apply (H digits). exact Ha.
+    - rewrite (H digits Ha) in Hd. discriminate.
+    - congruence.
+    - destruct H as (sig' & Hh' & Hne). rewrite Hh in Hh'.
+      assert (Hsig : sig = sig') by congruence.
+      apply Hne. rewrite <- Hsig, Hs, len_app_one, Hl. reflexivity.
+    - destruct H as (sig' & rs' & v' & Hh' & Hs' & H0 & H1 & H27 & H28). rewrite Hh in Hh'.
+      assert (Hsig : sig = sig') by congruence. rewrite <- Hsig, Hs in Hs'. apply app_inj_tail in Hs' as [_ Hvv]. subst v'.
+      destruct Hv as [[? _]|[[? _]|[[? _]|[? _]]]]; congruence.
+  Qed.
+
 End ClaimProofs.
 
 (* ------------------------------------------------------------------------------ *)
